@@ -19,25 +19,33 @@ import (
 
 // Codec describes one frame-codec configuration (JSON-serialisable).
 type Codec struct {
-	Kind   string `json:"kind"` // lf | prep | varint | delim | fixed | varlen (C08 only)
-	Width  int    `json:"width,omitempty"`
-	Little bool   `json:"little,omitempty"`
-	Off    int    `json:"off,omitempty"`
-	Adj    int    `json:"adj,omitempty"`   // lf: decoder lengthAdjustment; prep: prepender lengthAdjustment
-	Strip  int    `json:"strip,omitempty"` // initialBytesToStrip
-	Max    int    `json:"max,omitempty"`
-	IncLen bool   `json:"inclen,omitempty"` // prep: lengthIncludesLengthFieldLength
-	Delim  []byte `json:"delim,omitempty"`
-	StripD bool   `json:"stripd,omitempty"`
-	Fixed  int    `json:"fixed,omitempty"`
+	Kind     string `json:"kind"` // lf | prep | varint | delim | fixed | varlen (C08 only)
+	Width    int    `json:"width,omitempty"`
+	Little   bool   `json:"little,omitempty"`
+	OwnOrder bool   `json:"ownorder,omitempty"` // the byte order is handed over as an application-defined ByteOrder value
+	Off      int    `json:"off,omitempty"`
+	Adj      int    `json:"adj,omitempty"`   // lf: decoder lengthAdjustment; prep: prepender lengthAdjustment
+	Strip    int    `json:"strip,omitempty"` // initialBytesToStrip
+	Max      int    `json:"max,omitempty"`
+	IncLen   bool   `json:"inclen,omitempty"` // prep: lengthIncludesLengthFieldLength
+	Delim    []byte `json:"delim,omitempty"`
+	StripD   bool   `json:"stripd,omitempty"`
+	Fixed    int    `json:"fixed,omitempty"`
 }
 
 func (c Codec) order() binary.ByteOrder {
+	var o binary.ByteOrder = binary.BigEndian
 	if c.Little {
-		return binary.LittleEndian
+		o = binary.LittleEndian
 	}
-	return binary.BigEndian
+	if c.OwnOrder {
+		return ownOrder{o} // behaves the same, but is not identical to binary.LittleEndian/BigEndian
+	}
+	return o
 }
+
+// ownOrder is an application-defined binary.ByteOrder (like binary.NativeEndian, or a wrapper that counts calls).
+type ownOrder struct{ binary.ByteOrder }
 
 // DecAdj is the decoder-side lengthAdjustment.
 func (c Codec) DecAdj() int {
